@@ -31,6 +31,7 @@ FUNCS = {
     "numpy.exp": sp.exp, "math.exp": sp.exp,
     "numpy.log": sp.log, "math.log": sp.log,
     "numpy.abs": sp.Abs, "numpy.fabs": sp.Abs, "math.fabs": sp.Abs,
+    "numpy.sign": sp.sign,
     "numpy.radians": lambda x: x * PI / 180,
     "math.radians": lambda x: x * PI / 180,
     "numpy.deg2rad": lambda x: x * PI / 180,
